@@ -124,10 +124,21 @@ def _kernel_case(rng, path=None, mds=None):
             "mds": mds or rng.choice([256, 256, 3, 2]), "metric": "euclidean"}
 
 
+def _manyrows_case(rng, metric, n_rows=300):
+    """hundreds of transform rows (cyclic copies of a few distributions) under memory sizes that put several
+    256-row chunks into one block: chunk/block boundary arithmetic only shows at this size"""
+    c = _est_case(rng, "W", metric)
+    base = c["Xtest"]
+    c["Xtest"] = [list(base[i % len(base)]) for i in range(n_rows)]
+    c["variants"] = [{"t": "memory", "size": ms} for ms in ("50k", "20k", "13k", "1k")]
+    c["manyrows"] = True
+    return c
+
+
 def corpus():
     import random
     rng = random.Random(808)
-    cs = [
+    cs = [_manyrows_case(rng, "euclidean"), _manyrows_case(rng, "cosine", 520)] + [
         _est_case(rng, "W", "euclidean"),
         _est_case(rng, "W", "cosine"),
         _est_case(rng, "W", "euclidean", fullrank=True),
